@@ -152,6 +152,7 @@ inductive Ev where
   | dispatch (bid : Nat)
   | srv (n : Node) (c : Cmd) (asking : Bool) (o : Out)
   | recv (bid : Nat) (ok : Bool)
+  | unsent (c : Cmd)      -- after a failure: `c` never left the client (its node object was closed)
   | mig (m : Mig)
   | snapshot
   | install
@@ -224,6 +225,15 @@ def stepRecv (s : St) (bid : Nat) (ok : Bool) : Except String St :=
     else .ok { s with acked := bid :: s.acked }
   else .ok { s with failed := true }
 
+/-- a failed batch whose node-batch could not be sent at all (getConn on a node
+    removed by a refresh): the command leaves the queue unexecuted, the batch is
+    marked as having an error -/
+def stepUnsent (s : St) (c : Cmd) : Except String St :=
+  if s.failed = false then .error "unsent-without-failure"
+  else match splitFirst (fun x => x.cmd == c) s.todo with
+    | none => .error "unsent-unknown"
+    | some (b, x, a) => .ok { s with todo := b ++ a, bad := x.bid :: s.bad }
+
 def stepRestart (s : St) : Except String St :=
   if s.failed = false then .error "restart-without-failure"
   else if s.todo ≠ [] then .error "restart-before-drain"
@@ -234,6 +244,7 @@ def step (s : St) : Ev → Except String St
   | .dispatch bid => stepDispatch s bid
   | .srv n c asking o => stepSrv slotOf s n c asking o
   | .recv bid ok => stepRecv s bid ok
+  | .unsent c => stepUnsent s c
   | .mig m =>
     match applyMig slotOf s.sv m with
     | some sv' => .ok { s with sv := sv' }
